@@ -12,9 +12,9 @@ theorem sim_step (s : File) (op : Op) (hI : Inv s) (hG : GraphInv s.abs) (ha : a
   | detach slot => exact sim_detach s slot hI
   | setname slot n => exact sim_setname s slot n hI hG ha
   | setclass slot n => exact sim_setclass s slot n hI hG ha
-  | addtagref slot t r => exact sim_addtagref s slot t r hI hG ha
-  | insertvg slot slot2 => exact sim_insertvg s slot slot2 hI hG ha
-  | insertvs slot vsref => exact sim_insertvs s slot vsref hI hG ha
+  | addtagref slot t r => exact sim_addtagref s slot t r hI hG
+  | insertvg slot slot2 => exact sim_insertvg s slot slot2 hI hG
+  | insertvs slot vsref => exact sim_insertvs s slot vsref hI hG
   | deltagref slot t r => exact sim_deltagref s slot t r hI hG
   | setattr slot vsref => exact sim_setattr s slot vsref hI hG ha
   | vdelete ref => exact sim_vdelete s ref hI ha
